@@ -64,6 +64,16 @@ class DtypeScan:
                 return SAFE
         if isinstance(e, ast.Call) and dump(e.func) in ("numpy.dtype",) and e.args:
             return self.dtype_of_dtype_expr(e.args[0])
+        if isinstance(e, ast.IfExp):
+            # `X if dtype is None else numpy.dtype(dtype)`: the branch taken for the default argument (None) decides the accumulator of every call that does not ask
+            t = e.test
+            if isinstance(t, ast.Compare) and len(t.ops) == 1 and isinstance(t.left, ast.Name) and t.left.id in self.f.params() \
+                    and isinstance(t.comparators[0], ast.Constant) and t.comparators[0].value is None:
+                dflt = e.body if isinstance(t.ops[0], ast.Is) else (e.orelse if isinstance(t.ops[0], ast.IsNot) else None)
+                if dflt is not None:
+                    return self.dtype_of_dtype_expr(dflt)
+            a, b = self.dtype_of_dtype_expr(e.body), self.dtype_of_dtype_expr(e.orelse)
+            return INT8 if INT8 in (a, b) else (a if a == b else UNKNOWN)
         return UNKNOWN
 
     def dtype_of(self, e):
@@ -175,6 +185,8 @@ class DtypeScan:
                     self.dt_env[nm] = self.dtype_of(v.value)
                 elif isinstance(v, ast.Call) and dump(v.func) == "numpy.dtype" and v.args:
                     self.dt_env[nm] = self.dtype_of_dtype_expr(v.args[0]) or PARAM
+                elif isinstance(v, ast.IfExp) and self.dtype_of_dtype_expr(v) not in (UNKNOWN, None):
+                    self.dt_env[nm] = self.dtype_of_dtype_expr(v)
                 elif field_of(v) in ("taxa_axis", "vrnt_axis", "phase_axis"):
                     self.env_axis[nm] = field_of(v)
                 else:
